@@ -164,6 +164,8 @@ func c03(p *core.Prog, res *core.Result) {
 	}
 	m := newTouchMust(p)
 	res.Rule("R1T", "GetTimestamp of each driver reads the Timestamp its mutators touch", 2)
+	res.Rule("R1S", "the change token written by Touch comes from the finest clock reading or a counter", 1)
+	c03stamp(p, res, "R1S")
 	readsTS := map[string]bool{}
 	for _, impl := range p.Implementers(gi) {
 		if !inScope(impl) {
@@ -772,5 +774,66 @@ func c03keys(p *core.Prog, res *core.Result) {
 				res.Bad("R3F", key, wr[byPkg[pkgName][0]], fmt.Sprintf("%s writes key families %v but %s deletes no key of them: the entries survive the delete and keep answering lookups/listings", pr.ins, missing, pr.del))
 			}
 		}
+	}
+}
+
+
+// c03stamp (R1S): the timestamp is a change token — two successful mutations
+// must not leave it equal.  Necessary: what Touch stores is derived from the
+// nanosecond clock (time.Time.UnixNano) or from an atomic / locked counter, not
+// from a coarser rendering of the time (Unix, UnixMilli, UnixMicro, Format, …),
+// which repeats for mutations that complete within one tick.
+func c03stamp(p *core.Prog, res *core.Result, rule string) {
+	fi := p.Func("timestamp", "Timestamp.Touch")
+	if fi == nil || fi.Decl.Body == nil {
+		res.Fail("timestamp.Timestamp.Touch not found")
+		return
+	}
+	info := fi.Pkg.TypesInfo
+	key := core.FuncKey(fi.Obj)
+	res.Fn(key)
+	fine, coarse := "", ""
+	var visit func(body ast.Node, depth int)
+	visit = func(body ast.Node, depth int) {
+		ast.Inspect(body, func(n ast.Node) bool {
+			c, ok := n.(*ast.CallExpr)
+			if !ok {
+				return true
+			}
+			fn := core.CalleeFunc(info, c)
+			if fn == nil || fn.Pkg() == nil {
+				return true
+			}
+			full := fn.Pkg().Path() + "." + fn.Name()
+			if rn := core.RecvNamed(fn); rn != nil {
+				full = fn.Pkg().Path() + "." + rn.Obj().Name() + "." + fn.Name()
+			}
+			switch full {
+			case "time.Time.UnixNano":
+				fine = "time.Time.UnixNano at " + p.Pos(c.Pos())
+			case "time.Time.Unix", "time.Time.UnixMilli", "time.Time.UnixMicro", "time.Time.Format", "time.Time.String", "time.Time.Truncate", "time.Time.Round":
+				if coarse == "" {
+					coarse = fn.Name() + " at " + p.Pos(c.Pos())
+				}
+			}
+			if strings.HasPrefix(full, "sync/atomic.Add") || strings.HasSuffix(full, ".Add") && strings.HasPrefix(fn.Pkg().Path(), "sync/atomic") {
+				fine = full + " at " + p.Pos(c.Pos())
+			}
+			if depth < 2 && core.InRepo(fn) {
+				if cfi := p.Info(fn); cfi != nil && cfi.Decl.Body != nil && cfi.Pkg == fi.Pkg {
+					visit(cfi.Decl.Body, depth+1)
+				}
+			}
+			return true
+		})
+	}
+	visit(fi.Decl.Body, 0)
+	switch {
+	case coarse != "":
+		res.Bad(rule, key, p.Pos(fi.Decl.Pos()), fmt.Sprintf("%s derives the change token from %s: two successful mutations of a graph that complete within the same tick (embedded writes take tens of microseconds) leave GetTimestamp unchanged, so a client that caches on it keeps serving results from before the second mutation", key, coarse))
+	case fine != "":
+		res.OK(rule, key, p.Pos(fi.Decl.Pos()), "change token derived from "+fine)
+	default:
+		res.Unres(rule, key, p.Pos(fi.Decl.Pos()), "source of the change token not recognised (neither UnixNano nor an atomic counter)")
 	}
 }
